@@ -239,5 +239,9 @@ class GNAddress:
             return False
         return self.mid.mid == __o.mid.mid
 
+    def __hash__(self) -> int:
+        # Must agree with __eq__ (MID only): the location table and the location-service buffers are keyed by GNAddress.
+        return hash(self.mid.mid)
+
     def __str__(self) -> str:
         return f"GNAddress(M={self.m}, ST={self.st}, MID={self.mid})"
